@@ -33,9 +33,8 @@
 
     [gate_lock_general_statement] is the declarative form (no cycle of pairwise
     compatible sites => no deadlock) for an arbitrary table; it is proved in
-    Proofs/LockTableGateGen.v when that file exists, and otherwise stands as a
-    statement: what is proved here is the same conclusion from the computable
-    check, which implies the declarative premise ([gated_cycles_conflict]). *)
+    Proofs/LockTableGateGen.v ([gate_lock_general]), by extracting a cycle of
+    distinct threads from the wait-for relation of a deadlocked state. *)
 From Coq Require Import List String Bool Arith Lia.
 From AGH Require Import Base.Conc Model.Guards Proofs.Conc Proofs.ConcGate Proofs.LockTable Proofs.LockTablePairs.
 Import ListNotations.
